@@ -40,13 +40,15 @@ CASES = [
   result = daglish.MemoizedTraversal.run(_build, buildable)
 """)]),
     dict(id='c05-swallow', prop='C05', file=R, expect='violation',
-         edits=[("""      logging.exception('Formatting the debug information failed.')
-      raise exc from None
-""", """      logging.exception('Formatting the debug information failed.')
-""")]),
+         edits=[("      return False  # Re-raises the original exception.",
+                 "      return True")]),
     dict(id='c05-raise-other', prop='C05', file=R, expect='violation',
-         edits=[("      raise decorate_exception(exc, message) from None",
-                 "      raise RuntimeError(message) from None")]),
+         edits=[("    raise decorate_exception(exc, message) from None",
+                 "    raise RuntimeError(message) from None")]),
+    dict(id='c05-generator-helper-again', prop='C05', file=R, expect='violation',
+         names='GEN.no-raise-in-generator',
+         edits=[("import functools\n", "import contextlib\nimport functools\n"),
+                ('class try_with_lazy_message:  # pylint: disable=invalid-name\n  """Context manager which reraises exceptions.\n\n  This is a class rather than a generator-based `contextlib.contextmanager`:\n  an exception derived from `StopIteration` that is raised inside a generator\n  is turned into a `RuntimeError` (PEP 479), which would lose the original\n  exception class.\n  """\n\n  def __init__(self, lazy_message: Callable[[], str]):\n    self._lazy_message = lazy_message\n\n  def __enter__(self):\n    return None\n\n  def __exit__(self, exc_type, exc, traceback):\n    if exc is None or not isinstance(exc, Exception):\n      return False\n    try:\n      message = self._lazy_message()\n    except:  # pylint: disable=bare-except\n      logging.exception(\'Formatting the debug information failed.\')\n      return False  # Re-raises the original exception.\n    raise decorate_exception(exc, message) from None\n', '@contextlib.contextmanager\ndef try_with_lazy_message(lazy_message):\n  """Context manager which reraises exceptions."""\n  try:\n    yield\n  except Exception as exc:  # pylint: disable=broad-except\n    try:\n      message = lazy_message()\n    except:  # pylint: disable=broad-except\n      logging.exception(\'Formatting the debug information failed.\')\n      raise exc from None\n    else:\n      raise decorate_exception(exc, message) from None\n')]),
     dict(id='c05-str-prefix', prop='C05', file=R, expect='violation',
          edits=[("return str(self.proxy_base_exception) + self.proxy_message",
                  "return self.proxy_message + str(self.proxy_base_exception)")]),
